@@ -114,6 +114,12 @@ def cases(tier, seed):
                            "where": where}
     for k in ["source_noargs", "source_first_int", "source_first_none", "seq_empty"]:
         yield {"k": k}
+    # arguments that are all elements without data (SetContext, StoreContext): a Sequence / Split
+    # branch of them is the identity, the containers that need a data element reject them
+    for form in ["Sequence", "nested", "split_tuple", "split_bare", "RunIf", "Source", "FillSeq",
+                 "FillComputeSeq", "FillRequestSeq", "Source_then_flow"]:
+        for nels in (1, 2):
+            yield {"k": "only_nodata", "form": form, "n": nels}
     # a run-only element before a fill element cannot be converted (only callables can be
     # filled through): every container form must reject the arguments with LenaTypeError
     for fill_el in ["frseq", "fcseq", "fradapter", "sum", "nested_split_fc"]:
@@ -526,6 +532,48 @@ def run_case(r, obs):
             obs.fail("bad-argument-accepted:" + where,
                      "ill-typed argument %r at %s accepted at construction: %r"
                      % (r["bad"], where, type(made).__name__))
+    elif k == "only_nodata":
+        import lena.meta
+        obs.nontrivial = True
+        els = [lena.meta.SetContext("a", 1), lena.meta.StoreContext()][:r["n"]]
+        form = r["form"]
+        xs = [1, (2, {"c": 3})]
+        identity = {"Sequence": lambda: lena.core.Sequence(*els).run(iter(xs)),
+                    "nested": lambda: lena.core.Sequence(
+                        lena.core.Sequence(*els), lena.core.Sequence()).run(iter(xs)),
+                    "split_tuple": lambda: lena.core.Split([tuple(els)]).run(iter(xs)),
+                    "split_bare": lambda: lena.core.Split([els[0]]).run(iter(xs)),
+                    "RunIf": lambda: lena.flow.RunIf(lambda v: True, *els).run(iter(xs)),
+                    "Source_then_flow": lambda: lena.core.Source(*(els + [xs]))()}
+        rejecting = {"Source": lambda: lena.core.Source(*els),
+                     "FillSeq": lambda: lena.core.FillSeq(*els),
+                     "FillComputeSeq": lambda: lena.core.FillComputeSeq(*els),
+                     "FillRequestSeq": lambda: lena.core.FillRequestSeq(
+                         *els, bufsize=1, reset=False, buffer_input=True)}
+        if form in identity:
+            try:
+                got = list(identity[form]())
+            except Exception as e:  # pylint: disable=broad-except
+                obs.fail("elements-without-data-not-identity:" + form,
+                         "%s of only SetContext/StoreContext elements raised %r" % (form, e))
+            else:
+                obs.check(len(got) == len(xs) and all(a is b for a, b in zip(got, xs)),
+                          "elements-without-data-not-identity:" + form,
+                          "%s of only SetContext/StoreContext elements on %r gives %r"
+                          % (form, xs, got))
+        else:
+            try:
+                made = rejecting[form]()
+            except lena.core.LenaTypeError:
+                obs.count("rejected_at_construction")
+            except Exception as e:  # pylint: disable=broad-except
+                obs.fail("bad-argument-wrong-exception:only-elements-without-data:" + form,
+                         "%s(%s) raised %r instead of LenaTypeError"
+                         % (form, ", ".join(type(e_).__name__ for e_ in els), e))
+            else:
+                obs.fail("bad-argument-accepted:only-elements-without-data:" + form,
+                         "%s of only elements without data accepted: %s"
+                         % (form, type(made).__name__))
     elif k == "bad_fill_branch":
         import lena.math
         obs.nontrivial = True
